@@ -61,6 +61,8 @@ TIE_SEARCH = {
     "add_upvalue_tie": ("TieResolver", "Compiler::add_upvalue"), "add_upvalue_spec": ("TieResolver", "Compiler::add_upvalue"),
     "hash_number_tie": ("TieHash", "hash_number"),
     "fnv_write_tie": ("TieHash", "FnvHasher::write"),
+    "store_find_index_tie": ("TieIntern", "find_index"), "store_find_index_is_findIndex": ("TieIntern", "find_index"),
+    "store_get_tie": ("TieIntern", "ObjStringStore::get"),
     "allocate_raw_tie": ("TiePacing", "allocate_raw"),
     "collect_if_required_tie": ("TiePacing", "allocate_raw"),
     "collect_tie": ("TiePacing", "allocate_raw"),
